@@ -1162,6 +1162,45 @@ func ruleScoKeys(c *Ctx, r *R) {
 				return true
 			}
 			n++
+			// c.FuncName is a display name (package *name* + function): not a key either
+			usesFuncName := false
+			ast.Inspect(call.Args[0], func(q ast.Node) bool {
+				if sel, ok := q.(*ast.SelectorExpr); ok && sel.Sel.Name == "FuncName" {
+					usesFuncName = true
+				}
+				if id, ok := q.(*ast.Ident); ok && c.Obj(id) != nil {
+					// ... through a local: the nearest assignment to it ahead of the lookup, in the same block
+					if blk, ok := c.Parent(c.Parent(call)).(*ast.BlockStmt); ok || true {
+						_ = blk
+						var last ast.Expr
+						for p := c.Parent(call); p != nil && last == nil; p = c.Parent(p) {
+							b, isB := p.(*ast.BlockStmt)
+							if !isB {
+								continue
+							}
+							for _, st := range b.List {
+								if st.Pos() >= call.Pos() {
+									break
+								}
+								if as, ok := st.(*ast.AssignStmt); ok {
+									for k, l := range as.Lhs {
+										if li, ok := unparen(l).(*ast.Ident); ok && c.Obj(li) == c.Obj(id) && k < len(as.Rhs) {
+											last = as.Rhs[k]
+										}
+									}
+								}
+							}
+						}
+						if last != nil && strings.Contains(nosp(c.Src(last)), ".FuncName") {
+							usesFuncName = true
+						}
+					}
+				}
+				return true
+			})
+			if usesFuncName {
+				r.fail("globals key from FuncName in "+name, c.Pos(call), name+" keys a global by c.FuncName (`"+c.Src(call.Args[0])+"`), which is built from the package *name*: function-local types of two packages named alike (net/util and text/util, both `package util`) — or of two init functions of one package, all called <pkg>.init — share one slot: their fields are merged, or the load fails in GLOBALSTRUCT")
+			}
 			if mentions(call.Args[0]) {
 				r.fail("globals key in "+name, c.Pos(call), name+" looks up `"+c.Src(call.Args[0])+"` in c.Globals, a key built with pkgPrefix (the package *name*): package-level names are stored under expPrefix (the import path), so for a package whose path differs from its name — import \"example.com/geo/shape\" — the method's receiver type is a fresh nil global and the load fails in SETMETHOD (or the method is lost)")
 			}
@@ -1173,4 +1212,39 @@ func ruleScoKeys(c *Ctx, r *R) {
 		return
 	}
 	r.ok("globals keys", fmt.Sprintf("%d lookups in c.Globals, none keyed by pkgPrefix", n))
+	// a package may have several init functions: the scope their local types are keyed by
+	// differs from one init to the next (it involves a counter), it is not the constant <pkg>.init
+	if cs, err := c.compileSwitch(); err == nil {
+		if sc := cs.ByLabel["init"]; sc != nil {
+			counted := false
+			ast.Inspect(sc.Clause, func(q ast.Node) bool {
+				as, ok := q.(*ast.AssignStmt)
+				if !ok {
+					return true
+				}
+				for i, l := range as.Lhs {
+					sel, ok := unparen(l).(*ast.SelectorExpr)
+					if !ok || sel.Sel.Name == "FuncName" || i >= len(as.Rhs) {
+						continue
+					}
+					if b, ok := c.TypeOf(l).Underlying().(*types.Basic); !ok || b.Kind() != types.String {
+						continue
+					}
+					ast.Inspect(as.Rhs[i], func(k ast.Node) bool {
+						if e, ok := k.(ast.Expr); ok {
+							if bt, ok := c.TypeOf(e).(*types.Basic); ok && bt.Info()&types.IsInteger != 0 {
+								if _, isConst := c.ConstOf(e); !isConst {
+									counted = true
+								}
+							}
+						}
+						return true
+					})
+				}
+				return true
+			})
+			r.check(counted, "init scopes distinct", c.Pos(sc.Clause), "each init function gets a type scope of its own (numbered)",
+				"compile(\"init\") gives every init function of a package the same scope name: two init functions that each declare a local `type rec ..` share one global slot — fields merged, or GLOBALSTRUCT fails and every importer with it")
+		}
+	}
 }
